@@ -300,8 +300,8 @@ func ruleRefcount(c *core.Ctx) {
 		}
 	}
 	keyShape := func(v ssa.Value) string {
-		cr, _ := core.CallResult(core.Canon(v))
-		if cr == nil || cr.Call.StaticCallee() == nil || core.FuncKey(cr.Call.StaticCallee()) != "fmt.Sprintf" {
+		cr, _ := sprintfBehind(v)
+		if cr == nil {
 			return "?"
 		}
 		f, _ := core.ConstString(cr.Call.Args[0])
@@ -586,11 +586,50 @@ func sliceElem(t types.Type) types.Type {
 	return t
 }
 
+// sprintfBehind finds the fmt.Sprintf call that produced key: directly, or in
+// a key-building helper of the repository whose only return is a Sprintf
+// (subscriptionKey(service, object, action)); subst then maps the helper's
+// parameters to the arguments of the call.
+func sprintfBehind(key ssa.Value) (*ssa.Call, map[*ssa.Parameter]ssa.Value) {
+	cr, _ := core.CallResult(core.Canon(key))
+	if cr == nil || cr.Call.StaticCallee() == nil {
+		return nil, nil
+	}
+	h := cr.Call.StaticCallee()
+	if core.FuncKey(h) == "fmt.Sprintf" {
+		return cr, nil
+	}
+	if !inRepo(h) || len(h.Blocks) == 0 {
+		return nil, nil
+	}
+	var inner *ssa.Call
+	for _, r := range core.Returns(h) {
+		if len(r.Results) != 1 {
+			return nil, nil
+		}
+		ic, _ := core.CallResult(core.Canon(core.RetVal(r, 0)))
+		if ic == nil || ic.Call.StaticCallee() == nil || core.FuncKey(ic.Call.StaticCallee()) != "fmt.Sprintf" || (inner != nil && inner != ic) {
+			return nil, nil
+		}
+		inner = ic
+	}
+	if inner == nil {
+		return nil, nil
+	}
+	subst := map[*ssa.Parameter]ssa.Value{}
+	for i, p := range h.Params {
+		if i < len(cr.Call.Args) {
+			subst[p] = cr.Call.Args[i]
+		}
+	}
+	return inner, subst
+}
+
 // sprintfOperands lists the values formatted by the fmt.Sprintf call that
 // produced key (through the varargs array go/ssa builds).
 func sprintfOperands(key ssa.Value) []ssa.Value {
-	cr, _ := core.CallResult(core.Canon(key))
-	if cr == nil || cr.Call.StaticCallee() == nil || core.FuncKey(cr.Call.StaticCallee()) != "fmt.Sprintf" || len(cr.Call.Args) < 2 {
+	cr, subst := sprintfBehind(key)
+	if cr == nil || len(cr.Call.Args) < 2 {
 		return nil
 	}
 	sl, ok := cr.Call.Args[1].(*ssa.Slice)
@@ -608,6 +647,11 @@ func sprintfOperands(key ssa.Value) []ssa.Value {
 				v := st.Val
 				if mi, ok := v.(*ssa.MakeInterface); ok {
 					v = mi.X
+				}
+				if p, ok := core.Canon(v).(*ssa.Parameter); ok {
+					if a, ok := subst[p]; ok {
+						v = a
+					}
 				}
 				out = append(out, v)
 			}
